@@ -321,6 +321,17 @@ def gen_after_disconnect(v, rng, n=400):
     if v != 5:
         return []
     cases = []
+    # systematic: alias 1 bound to t1 by a delivered publish, DISCONNECT, a publish of QoS qd that re-binds alias 1 to
+    # t2 (dropped when qd is above the limit), then an alias-only publish of QoS qa
+    for hq in (0, 1, 2, 3):
+        for qd in (0, 1, 2):
+            for qa in (0, 1, 2):
+                for pre in (True, False):
+                    cfg = (2, 0, 3, 0, 0, 0, hq)
+                    ops = ([(4,) + pub(0, 0, 1, alias=1)] if pre else []) + [(4, 1, 9, 0, 0)]
+                    ops.append((4,) + pub(qd, 1, 2, alias=1))
+                    ops.append(pub(qa, 2, 0, alias=1))
+                    cases.append(fmt(cfg, ops + [(2, 1, 0), (2, 2, 0), (2, 3, 0)]))
     for _ in range(n):
         hq = rng.choice([0, 1, 1, 2, 3])
         cfg = (2, 0, 3, 0, 0, 0, hq)
